@@ -186,20 +186,7 @@ Entitled(pre, post, queue, v) ==
 Gained(pre, post, x) == /\ x \in AppNames(post) /\ post.apps[x].server # NoServer
                         /\ (x \notin AppNames(pre) \/ pre.apps[x].server # post.apps[x].server)
 
-C07justified(pre, post, queue) ==
-  \A v \in AppNames(pre) :
-    (Entitled(pre, post, queue, v) /\ pre.servers[pre.apps[v].server].state = "up") =>
-      \/ post.apps[v].server = pre.apps[v].server
-      \/ \E i \in 1..(QPos(queue, v) - 1) : Gained(pre, post, queue[i][1])
-
-C07ex(pre, post, queue) ==
-  \E v \in AppNames(pre) :
-    /\ Entitled(pre, post, queue, v) /\ pre.servers[pre.apps[v].server].state = "up"
-    /\ post.apps[v].server # pre.apps[v].server
-
------------------------------------------------------------------------------
-(* C06: one partition's queue q = sequence of <<name, rank, placedAtQueueTime>> *)
-(* st supplies priorities, arrival stamps, demands and the allocations         *)
+(* queue entries <<name, rank, placedAtQueueTime>> and the order inside one allocation *)
 RK(r) == IF r = UnplacedRank THEN 1000000000 ELSE r
 QApp(st, e) == st.apps[e[1]]
 Pend(e) == IF e[3] THEN 0 ELSE 1
@@ -211,6 +198,31 @@ KeyBefore(st, e1, e2) ==
   \/ a.prio = b.prio /\ Pend(e1) < Pend(e2)
   \/ a.prio = b.prio /\ Pend(e1) = Pend(e2) /\ a.order < b.order
 
+(* "ahead of v": earlier in the cycle's queue - and, inside one allocation,     *)
+(* not behind v by the allocation's own order (priority, running before        *)
+(* pending, arrival): a queue that was sorted on a state older than the one     *)
+(* scheduled on does not make a pending instance "ahead" of a running one       *)
+AheadOf(pre, queue, i, v) ==
+  LET j == QPos(queue, v) x == queue[i][1] IN
+  /\ i < j
+  /\ (x \in AppNames(pre) /\ Len(queue[i]) >= 3 /\ Len(queue[j]) >= 3
+      /\ pre.apps[x].alloc = pre.apps[v].alloc) => ~KeyBefore(pre, queue[j], queue[i])
+
+C07justified(pre, post, queue) ==
+  \A v \in AppNames(pre) :
+    (Entitled(pre, post, queue, v) /\ pre.servers[pre.apps[v].server].state = "up") =>
+      \/ post.apps[v].server = pre.apps[v].server
+      \/ \E i \in 1..(QPos(queue, v) - 1) :
+            Gained(pre, post, queue[i][1]) /\ AheadOf(pre, queue, i, v)
+
+C07ex(pre, post, queue) ==
+  \E v \in AppNames(pre) :
+    /\ Entitled(pre, post, queue, v) /\ pre.servers[pre.apps[v].server].state = "up"
+    /\ post.apps[v].server # pre.apps[v].server
+
+-----------------------------------------------------------------------------
+(* C06: one partition's queue q = sequence of <<name, rank, placedAtQueueTime>> *)
+(* st supplies priorities, arrival stamps, demands and the allocations         *)
 C06perm(st, qs) ==
   /\ \A k \in DOMAIN qs : \A i, j \in DOMAIN qs[k] : i # j => qs[k][i][1] # qs[k][j][1]
   /\ \A k1, k2 \in DOMAIN qs : k1 # k2 =>
